@@ -9,7 +9,7 @@ invariants, machine = Apply, length exactness, and prints every input as a progr
 drv_bsdiff executes the programs on the real builders and patchers; T_Bsdiff judges every patch record with
 Bsdiff!Apply on the recorded old file and the patch's decompressed blocks (binding E).
 """
-import glob, hashlib, json, os
+import glob, hashlib, json, os, time
 from concurrent.futures import ThreadPoolExecutor
 from . import lib
 
@@ -131,9 +131,17 @@ def judge_trace(ctx, trace, source, kd, totals):
               deviations=len(v["deviations"]), wall_s=v["wall_s"], **{k: v.get(k, 0) for k in STAT_KEYS if v.get(k, 0)})
     lib.classify_trace(ctx, v, trace, source, program_of=program_of)
     if v.get("undecided", 0):
-        raise lib.ToolError(f"{source}: {v['undecided']} patch records could not be decided (control values outside the range the "
-                            "monitor models, |v| >= 2^24, or a zlib block the driver's inflater rejects and the library's reads): inconclusive")
+        lib.log(f"[{ctx.id}] {source}: {v['undecided']} patch records could not be decided")
     return v
+
+
+def inconclusive(ctx, totals):
+    """Records the monitor could not decide (a zlib block the driver's inflater rejects but the library's reads, or a
+    block of 2^24 bytes or more) make the run inconclusive - unless a violation was found anyway."""
+    n = totals.get("undecided", 0)
+    ctx.cov["undecided_records"] = n
+    if n and not ctx.violations:
+        raise lib.ToolError(f"{n} patch records could not be decided: inconclusive")
 
 
 def execute(ctx, name, progs, n, kd, totals, seen, frac=0.5):
@@ -217,10 +225,16 @@ def fixtures(ctx, kd):
     v = lib.judge(ctx, MODULE_T, write_tcfg(ctx, kd), trace, max_events=3, heap="3g")
     ctx.stage("spec_validation", source="CDN fixtures", triplets=len(names), events=v["events"], violations=len(v["violations"]),
               with_seek=v.get("with_seek", 0), wall_s=v["wall_s"])
-    ctx.cov["cdn_fixture_triplets"] = {"triplets": len(names), "apply_equals_new_and_patchers_agree": len(names) - len(v["violations"]),
+    impl_only = v.get("impl_only", 0)          # Apply = new, but a real patcher returned something else
+    ctx.cov["cdn_fixture_triplets"] = {"triplets": len(names), "format_definition_yields_new": len(names) - (len(v["violations"]) - impl_only),
+                                       "real_patchers_yield_new": len(names) - len(v["violations"]),
                                        "records_with_effective_seek": v.get("with_seek", 0)}
-    if v["violations"] or v.get("undecided") or v.get("patches") != len(names):
+    if len(v["violations"]) > impl_only or v.get("undecided") or v.get("patches") != len(names):
         raise lib.ToolError(f"format definition not validated by the real CDN patches: {v}")
+    if impl_only:
+        # not a C16 verdict (these patches were not generated by this library); the repository's own fixture tests cover it
+        lib.log(f"[{ctx.id}] NOTE: the real patchers do not reproduce the new file for {impl_only} of {len(names)} real CDN patches "
+                "(Bsdiff!Apply does) - outside the C16 statement, reported in evidence")
 
 
 def replay(ctx, kd):
@@ -232,12 +246,14 @@ def replay(ctx, kd):
     open(p, "w").write(json.dumps(prog) + "\n")
     trace = ctx.path("replay_trace.ndjson")
     lib.run_driver(DRV, ["--programs", p, "--out", trace, "--alphabets", ALPHABETS])
-    v = judge_trace(ctx, trace, "replay", kd, {})
+    totals = {}
+    v = judge_trace(ctx, trace, "replay", kd, totals)
     for line in lib.read_lines(trace):
         print(json.dumps(slim(json.loads(line), 64), separators=(",", ":")))
     print(json.dumps(v))
     for _, fid in v["deviations"]:
         print(f"KNOWN-FINDING: property={PROP} {fid} reproduced by this replay")
+    inconclusive(ctx, totals)
     return 1 if v["violations"] else 0
 
 
@@ -326,7 +342,7 @@ def selftest(ctx, traces, kd):
 
 def run(ctx):
     kd = known(ctx)
-    lib.build([DRV])
+    ctx.stage("build", wall_s=round(lib.build([DRV]), 2))
     if ctx.replay:
         return replay(ctx, kd)
     totals, seen = {}, set()
@@ -344,7 +360,9 @@ def run(ctx):
         n, dn = mc_and_run(ctx, name, kd, totals, seen, **over)
         runs += n
         distinct += dn
+    t = time.time()
     model_witness(ctx)
+    ctx.stage("model_witness", wall_s=round(time.time() - t, 2))
     fixtures(ctx, kd)
     listed = listed_programs(ctx, ctx.seed, nmed, nlong, grid)
     traces = {}
@@ -353,7 +371,10 @@ def run(ctx):
         traces[name], r, dn = execute(ctx, f"{name} seed={ctx.seed}", path, n, kd, totals, seen, frac=0.37)
         runs += r
         distinct += dn
+    t = time.time()
     selftest(ctx, [(traces["med"], 250), (traces["long"], 120)], kd)
+    ctx.stage("binding_selftest", wall_s=round(time.time() - t, 2))
+    inconclusive(ctx, totals)
     # anti-vacuity: the interesting classes were really exercised on the real code
     for k in ("patches", "with_diff", "with_seek", "long_records", "arb_ok", "arb_fail", "by_simple", "by_chunked", "by_optimized"):
         if not totals.get(k):
@@ -375,7 +396,8 @@ def run(ctx):
         "the driver's independent reader of a patch (header split, RFC 1950/1951 inflate, Adler-32) is trusted; it shares no code with the library "
         "(VERIF_BSDIFF_XCHECK=1 compares it with the library's decompress_zlib during development)",
         "pairs longer than ~1.4 KB are judged by output length + MD5 and by Bsdiff!ApplyLen on the decoded control block, not byte by byte",
-        "control values of magnitude >= 2^24 are outside the monitor's integer range: such a record makes the check inconclusive (exit 2), never a verdict",
+        "old-file positions are kept exactly (three 24-bit limbs), so any 63-bit seek is judged; sizes of 2^24 or more exceed every block judged here and fail like in bspatch",
+        "a zlib block that the driver's inflater rejects but the library's reads is a dispute between two inflaters: the record is undecided and the check exits 2, never 1",
         "a builder that returns Err (or panics) produced no patch: counted as builder_refusals / builder_panics, not judged (the statement quantifies over produced patches)",
         "arbitrary (not library-generated) patches are only required to fail or be length-exact; agreement of their output with the format is reported, not judged",
     ]
